@@ -255,6 +255,25 @@ def genModuleWith (acc : Bool) (s : SymRepr) : Except String Module :=
   if r.1.fns.any (fun kv => hasDup kv.2.2) then .error "ValueError"
   else .ok { functions := r.1.fns, calls := r.2 }
 
+/-! ### `sympy_to_python_fn`: a parameter called like a name the body calls gets a name of its own (F-C17-13) -/
+
+/-- `for arg in clash: new = f"{arg}_"; while new in taken: new += "_"; taken.add(new)` along the parameter list -/
+def shadowGo (called : List String) : List String → List String → List String
+  | _, [] => []
+  | taken, a :: as =>
+    if called.contains a then
+      let n := freshName taken (a ++ "_")
+      n :: shadowGo called (n :: taken) as
+    else a :: shadowGo called taken as
+
+/-- the parameter names of the emitted `def`; `called` = the names the printed body calls or reaches into (opaque, like the
+    body).  `taken` starts from the arguments and the called names (the free symbols of the body are among the arguments
+    wherever the generator is used: `_codegen` passes exactly them, the generated `SymbolicRepr`s have closed bodies) -/
+def shadowRename (called args : List String) : List String := shadowGo called (args ++ called) args
+
+def Module.renameParams (calledOf : ExprId → List String) (m : Module) : Module :=
+  { m with functions := m.functions.map fun kv => (kv.1, (kv.2.1, shadowRename (calledOf kv.2.1) kv.2.2)) }
+
 /-- the generator as it is -/
 def genModule (s : SymRepr) : Except String Module := genModuleWith true s
 
